@@ -79,7 +79,7 @@ def admit_scripts(hists, rng):
             ln = "req cmd=STORE c=%d sz=%d ttl=%s pow=%s path=%d" % (a["ch"] + rng.randrange(3) * 2, sz, ttl, pow_, rng.choice([0, 1, 2, 3, 4, 5]) if pow_ != "wrongname" else 2)
             if a["len"] == "over":
                 ln += " body=withhold" + (" len=%s" % rng.choice(["18446744073709551615", "4294967296", "99999999999"]) if rng.random() < 0.3 else "")
-            elif rng.random() < 0.2:
+            elif rng.random() < 0.03:
                 ln += " body=withhold"
             lines.append(ln)
         out.append(lines)
@@ -166,6 +166,7 @@ def random_auth(rng, n):
 
 
 def random_admit(rng, n):
+    """mostly admissible STOREs with one (sometimes two) defects, values on and next to every boundary"""
     out = []
     for _ in range(n):
         cap = rng.choice([16, 64, 1000, 4096])
@@ -175,18 +176,25 @@ def random_admit(rng, n):
         tok = rng.random() < 0.3
         lines = ["reset token=%d pow=%d cap=%d minttl=%d maxttl=%d defttl=%d" % (tok, pw, cap, mn, mx, rng.choice([1, mn, mx, 10 ** 6]))]
         for _ in range(rng.randint(3, 7)):
-            sz = rng.choice([1, cap - 1, cap, cap, cap + 1, cap + 1, 2 * cap, cap + 17])
-            ttl = rng.choice(["none", str(mn - 1), str(mn), str(mn + 1), str(mx - 1), str(mx), str(mx + 1), "0", "abc", "empty", "-5",
-                              "18446744073709551646", "4294967326", "999999999"])
-            pow_ = rng.choice(["valid", "valid", "valid", "invalid", "wrongname", "wrongsize", "wronghash", "missing", "garbage"])
+            sz = rng.choice([1, cap - 1, cap, cap])
+            ttl = rng.choice(["none", str(mn), str(mn + (1 if mx > mn else 0)), str(mx - (1 if mx > mn else 0)), str(mx)])
+            pow_ = "valid"
+            for _ in range(rng.choice([0, 0, 1, 1, 1, 2])):
+                d = rng.randrange(3)
+                if d == 0:
+                    sz = rng.choice([cap + 1, cap + 1, 2 * cap, cap + 17])
+                elif d == 1:
+                    ttl = rng.choice([str(mn - 1), str(mx + 1), "0", "abc", "empty", "-5", "18446744073709551646", "4294967326", "999999999"])
+                else:
+                    pow_ = rng.choice(["invalid", "wrongname", "wrongsize", "wronghash", "missing", "garbage"])
             ln = "req cmd=STORE c=%d sz=%d ttl=%s pow=%s path=%d perm=%d" % (rng.randrange(1, 30), sz, ttl, pow_, 2 if pow_ == "wrongname" else rng.randrange(6), rng.randrange(20))
             if tok:
                 ln += " tok=exact pos=%s" % rng.choice(["0", "2", "last"])
-            elif rng.random() < 0.5:
-                ln += " tok=h%d" % rng.randrange(1000)       # own bucket: admission is looked at, not the rate limit
+            else:
+                ln += " tok=h%d src=%d" % (rng.randrange(100000), rng.randrange(1, 15))   # spread over addresses: admission is looked at here, the rate limit elsewhere
             if sz > cap:
                 ln += " body=withhold" + (" len=%s" % rng.choice(["18446744073709551615", "4294967296"]) if rng.random() < 0.25 else "")
-            elif rng.random() < 0.15:
+            elif rng.random() < 0.03:
                 ln += " body=withhold"
             lines.append(ln)
         out.append(lines)
@@ -210,7 +218,8 @@ def random_rate(rng, n):
                 if fetch and rng.random() < 0.8:
                     lines.append("req cmd=FETCH-STREAM c=1 src=%d%s" % (src, t))
                 else:
-                    lines.append("req cmd=STORE c=%d src=%d%s ttl=%d" % (rng.randrange(1, 40), src, t, rng.choice([600, 3000])))
+                    lines.append("req cmd=STORE c=%d src=%d%s ttl=%d path=%d perm=%d lc=%d" % (rng.randrange(1, 40), src, t, rng.choice([600, 601, 3000, 3599]),
+                                                                                            rng.randrange(6), rng.randrange(9), rng.random() < 0.1))
                 marks.append(now)
             # land exactly on / next to the end of a 30 s window with probability 1/2
             if marks and rng.random() < 0.5:
